@@ -1,7 +1,7 @@
 import PdModel.Driver.Common
 import PdModel.Model.IdAlloc
 import PdModel.Spec.C04
-import PdModel.Generated.Consts
+import PdModel.Generated.IdAlloc
 /-!
 Driver for area `idalloc` (property C04).  Trace line: `<op> => <out> @<stored>`.
 The model side recomputes `<out> @<stored>`; the monitor side judges the *implementation's*
@@ -102,7 +102,7 @@ def monitor (m : Mon) (op : Op) (impl : String) : Mon × List String :=
 def step (d : DState) (opLine : String) (impl : String) : DState × StepOut :=
   match words opLine with
   | ["reset"] =>
-    ({ model := init PdModel.Generated.allocStep }, { model := "ok @0" })
+    ({ model := init PdModel.Generated.IdAlloc.allocStep }, { model := "ok @0" })
   | ws =>
     match parseOp ws with
     | none => (d, { model := "bad-op @0" })
@@ -112,6 +112,6 @@ def step (d : DState) (opLine : String) (impl : String) : DState × StepOut :=
       ({ model := s', mon := mon' }, { model := s!"{o.toString} @{s'.bound}", fails := fails })
 
 def main : IO UInt32 :=
-  runDriver ({ model := init PdModel.Generated.allocStep } : DState) step
+  runDriver ({ model := init PdModel.Generated.IdAlloc.allocStep } : DState) step
 
 end PdModel.Driver.IdAlloc
